@@ -96,9 +96,13 @@ def build(case):
                     slug = f"{base}-{i}"
                     i += 1
                 taken.append(slug)
-            headings.append({"level": b["level"], "title": title, "slug": slug})
-            out.append(["#" * b["level"] + " " + title])
-            out.append([f"Hp{len(headings) - 1}x"])
+            headings.append({"level": b["level"], "title": title, "slug": slug, "wrapped": bool(b.get("wrap"))})
+            if b.get("wrap"):
+                # a heading inside a container becomes a rubric; it still gets an anchor slug
+                out.append(wrap(["lead text", "", "#" * b["level"] + " " + title], b["wrap"]))
+            else:
+                out.append(["#" * b["level"] + " " + title])
+                out.append([f"Hp{len(headings) - 1}x"])
         elif t == "target":
             name, kind = b["name"], b["kind"]
             mk = f"Tg{n_t}x"
@@ -217,11 +221,15 @@ def check_case(acc, case, project=None) -> list[dict]:
         return [mk(f"C09:render-raises:{type(exc).__name__}", case, "document", f"{type(exc).__name__}: {exc}")]
     vs = []
     targets, headings, links = info["targets"], info["headings"], info["links"]
-    sections = list(doc.findall(nodes.section))
+    secs = list(doc.findall(nodes.section))
+    rubs = [r for r in doc.findall(nodes.rubric) if "level" in r]
     slug_to_idx = {h["slug"]: i for i, h in enumerate(headings) if h["slug"]}
-    if len(sections) != len(headings):
-        vs.append(mk("C09:harness-section-count", case, len(headings), len(sections)))
+    if len(secs) != sum(1 for h in headings if not h.get("wrapped")) or len(rubs) != sum(1 for h in headings if h.get("wrapped")):
+        vs.append(mk("C09:harness-section-count", case, [bool(h.get("wrapped")) for h in headings], [len(secs), len(rubs)]))
         return vs
+    si = iter(secs)
+    ri = iter(rubs)
+    sections = [next(ri) if h.get("wrapped") else next(si) for h in headings]  # heading index -> its node, in source order
 
     # collect '#' reference nodes by their marker word
     refs = {}
@@ -244,7 +252,8 @@ def check_case(acc, case, project=None) -> list[dict]:
 
     def n_warn(lk):
         """warnings naming this link's target at this link's line (links sit in one-line paragraphs)"""
-        pat = re.compile(r"^(?:.*?):" + str(lk["line"]) + r": .*target not found: " + re.escape(repr(lk["to"])))
+        line_pat = r"\d*" if (frontend == "sphinx" and lk["wrap"] == "cell") else str(lk["line"])  # (known finding: no true line)
+        pat = re.compile(r"^(?:.*?):" + line_pat + r": .*target not found: " + re.escape(repr(lk["to"])))
         return sum(1 for w in wl if pat.search(w))
     expected_missing = []
     resolving = missing = clash = 0
@@ -377,7 +386,8 @@ def case_st(draw):
         blocks.append({"t": "target", "kind": draw(st.sampled_from(TARGET_KINDS)), "name": nm,
                        "wrap": draw(st.sampled_from(WRAPS))})
     for _ in range(draw(st.integers(0, 5))):
-        blocks.append({"t": "heading", "level": draw(st.integers(1, 3)), "title": draw(st.sampled_from(TITLES))})
+        blocks.append({"t": "heading", "level": draw(st.integers(1, 3)), "title": draw(st.sampled_from(TITLES)),
+                       "wrap": draw(st.sampled_from([None, None, None, "quote", "list", "note"]))})
     for _ in range(draw(st.integers(0, 2))):
         blocks.append({"t": "filler"})
     blocks = draw(st.permutations(blocks))
@@ -430,6 +440,25 @@ def sub_each(acc, shard, nshards, tier, seed):
                                 acc.known_hits[v["signature"]] += 1
                             elif len(acc.violations) < 8 and all(v["signature"] != x["signature"] for x in acc.violations):
                                 acc.violations.append(v)
+    # a heading inside each container kind, linked by its slug, with a later duplicate title at top level
+    for hw in ["quote", "list", "note"]:
+        for form in FORMS:
+            for lw in [None, "quote", "list", "note", "cell"]:
+                for dup_first in (False, True):
+                    i += 1
+                    if i % nshards != shard:
+                        continue
+                    inner = {"t": "heading", "level": 2, "title": "Delta", "wrap": hw}
+                    top = {"t": "heading", "level": 1, "title": "Delta"}
+                    blocks = ([top, inner] if dup_first else [inner, top]) + [
+                        {"t": "link", "form": form, "to": "delta", "wrap": lw},
+                        {"t": "link", "form": form, "to": "delta-1", "wrap": lw},
+                        {"t": "link", "form": form, "to": "delta-2", "wrap": lw}]
+                    for v in check_case(acc, {"anchors": 3, "blocks": blocks}):
+                        if kn.matches(v):
+                            acc.known_hits[v["signature"]] += 1
+                        elif len(acc.violations) < 8 and all(v["signature"] != x["signature"] for x in acc.violations):
+                            acc.violations.append(v)
     acc.exhaustive = True
 
 
